@@ -517,7 +517,8 @@ class SupvisorsOptions:
         """ Convert a string into a list of period values. """
         try:
             period = float(value)
-            if 1.0 > period or period > 3600.0:
+            # NOTE: written so that NaN is rejected
+            if not 1.0 <= period <= 3600.0:
                 raise ValueError
             return period
         except ValueError:
@@ -538,7 +539,8 @@ class SupvisorsOptions:
         for val in str_periods:
             try:
                 period = float(val)
-                if 1.0 > period or period > 3600.0:
+                # NOTE: written so that NaN is rejected
+                if not 1.0 <= period <= 3600.0:
                     raise ValueError
                 periods.append(period)
             except ValueError:
